@@ -672,14 +672,13 @@ def run_tree_case(run, rng, kind):
             elif abs(est - e_list[-1]) > 10 * tolf:
                 run.violation(f"optimize_ttns:full-bond:state-energy-differs-from-reported:{tag}",
                               dict(replay, state_energy=est, reported=float(e_list[-1])))
-            if tm.qn_size == 1:
-                # (TTNS.expectation raises ValueError for 2-component labels: its dummy node has label size 1;
-                #  that belongs to the tree-state properties, it is only counted here)
+            try:
                 ex = float(np.real(ttns.expectation(ttno)))
-                if abs(ex - est) > 1e-8 * scale:
-                    run.violation(f"optimize_ttns:expectation-vs-dense:{tag}", dict(replay, expectation=ex, dense=est))
-            else:
-                run.count("tree:observation:expectation-skipped-2-component-labels")
+            except Exception as e:  # noqa
+                run.violation(f"optimize_ttns:expectation:raises:{type(e).__name__}:qn_size={tm.qn_size}", dict(replay, error=repr(e)[:300]))
+                ex = None
+            if ex is not None and abs(ex - est) > 1e-8 * scale:
+                run.violation(f"optimize_ttns:expectation-vs-dense:{tag}", dict(replay, expectation=ex, dense=est))
             run.count("T:full-checked")
     run.sample(dict(cfg=cfg, dims=tm.dims, e_last=float(e_list[-1]), exact=float(w[0])))
     return ("tree", kind, tuple(tm.dims), algo, full, tuple(map(tuple, groups)), tuple(parents))
